@@ -294,10 +294,10 @@ def main(argv=None):
           f"({', '.join(f'{k}:{v}' for k, v in sorted(backends.items()))}); "
           f"{len(knowns)} known finding(s), {len(bounded)} bounded, {len(undecided)} undecided, "
           f"{len(violations)} violation(s); {ev['wall_s']} s")
+    if violations:
+        return 1          # a demonstrated violation outranks a fault of another family
     if crashes:
         return 3
-    if violations:
-        return 1
     if undecided:
         return 2
     return 0
